@@ -42,7 +42,10 @@ SHAPES = {
     "ussu": (["{NUMBER:a} üssü {NUMBER:b}"], "sum", 0.0, ""),
 }
 PROBES = ["3 widgets", "5 gadgets", "2 plus 5", "magic number", "price of gold", "7 again", "1 + 1", "3 km flagged", "3 kb flagged",
-          "3 çay", "4 Çay", "5 ÇAY", "2 ΚΑΦΕ", "2 καφε", "2 ÜSSÜ 5", "3 üssü 4"]
+          "3 çay", "4 Çay", "5 ÇAY", "2 ΚΑΦΕ", "2 καφε", "2 ÜSSÜ 5", "3 üssü 4",
+          # built-in behaviour next to the custom rules: registrations and deletions touch API rules only ("default" =
+          # compared with the fresh calculator / the survivors-only calculator, not with an absolute value)
+          "90 seconds as minutes", "10% of 200", "1 km to m", "12:30 EST to CET", "10 usd to try", "3 hours 20 minutes"]
 
 
 def add_op(name, shape, lang="en"):
@@ -165,6 +168,19 @@ def generate(rng, tier):
             opsB.append({"op": "exec", "lang": "en", "text": t})
         cases.append({"ops": opsB, "meta": {"kind": "survivors", "checks": [], "interesting": False, "pair": 2 * k,
                                            "final_from": baseB, "role": "B"}})
+    # a rule with several patterns: a pattern that matches but is DECLINED (kind scale declines unless the field is
+    # called x) counts as absent, and the rule's next pattern is still tried on the line - absolute expectations
+    def picky(pats, probes):
+        ops = [{"op": "add_rule", "lang": "en", "patterns": pats, "name": "picky", "kind": "scale", "k": str(bits(3.0)), "cur": ""}]
+        checks = [("ret", 0, True)]
+        for t, v in probes:
+            ops.append({"op": "exec", "lang": "en", "text": t})
+            checks.append(("abs", len(ops) - 1, v))
+        return {"ops": ops, "meta": {"kind": "declined-pattern", "checks": checks, "interesting": True, "pair": None}}
+    cases.append(picky(["{NUMBER:y} apples", "{NUMBER:x} pears"], [("3 apples + 5 pears", 18.0), ("5 pears + 3 apples", 18.0),
+                                                                      ("5 pears", 15.0), ("3 apples", 3.0), ("2 pears 4 apples", 10.0)]))
+    cases.append(picky(["{NUMBER:x} pears", "{NUMBER:y} apples"], [("3 apples + 5 pears", 18.0), ("5 pears + 3 apples", 18.0)]))
+    cases.append(picky(["{NUMBER:y} {TEXT:fruit}", "{TEXT:fruit} {NUMBER:x}"], [("3 apples + pears 5", 18.0), ("pears 5", 15.0)]))
     # user-defined unit families; the duplicate registrations come AFTER the family has items, and one targets a
     # built-in family: a rejected registration must not change any behaviour
     def item(name, index, fmt, word, up, down):
@@ -263,6 +279,11 @@ def spec_check(c, rec, header):
             if [strip(l) for l in a["lines"]] != [strip(l) for l in b["lines"]]:
                 return "after deleting every rule, %r differs from a fresh calculator: %r vs %r" % (
                     c["ops"][ch[1]]["text"], a["lines"], b["lines"])
+        elif ch[0] == "abs":
+            lines = obs[ch[1]].get("lines")
+            got = val(lines[0]) if lines and len(lines) == 1 and lines[0] is not None else None
+            if got != ("Number", ch[2]):
+                return "probe %r (op %d): expected the number %r, got %r" % (c["ops"][ch[1]]["text"], ch[1], ch[2], got)
         elif ch[0] == "unit":
             lines = obs[ch[1]].get("lines")
             if not lines or lines[0] is None:
